@@ -260,6 +260,7 @@ func (w *FrameWorld) scheduleNext() {
 	w.K.At(at, fmt.Sprintf("op:%d:%s", op.ID, op.Kind), func() {
 		w.prev = w.K.Now()
 		w.K.Stats.Op(op.Kind)
+		w.K.OpIssued(op.ID)
 		w.exec(op)
 		w.scheduleNext()
 	})
